@@ -36,6 +36,7 @@ type Profile struct {
 	Kinds      []string
 	NoNot      bool
 	FETags     bool // struct fields also carry form/query/env tags
+	PTopPT     int  // % of top-level structs with PostTransforms even when PPT is 0 (their gate is deterministic)
 	PValid     int  // % of primitive leaves given a value their own schema accepts
 	Repeats    int  // how many times a case is re-run (with reshuffled schema insertion orders and varying pool states)
 }
@@ -368,6 +369,12 @@ func (g *Gen) strct(depth int) *Node {
 	}
 	g.tests(n)
 	g.pts(n)
+	if depth == 0 && len(n.PTs) == 0 && r.P(g.P.PTopPT) {
+		n.PTs = append(n.PTs, g.pt(n))
+		if r.P(40) {
+			n.PTs = append(n.PTs, g.pt(n))
+		}
+	}
 	return n
 }
 
@@ -434,6 +441,15 @@ func ProfileByName(name string) Profile {
 		p.PLayout = 50
 		p.PPrefill = 50
 		p.PExtra = 60
+	case "C13":
+		p.PExtra = 0
+		p.PTopPT = 45
+		p.PPre = 0
+		p.PPT = 0
+		p.PCoercer = 0
+		p.PTests = 75
+		p.PCatch = 25
+		p.PTags = 50
 	case "fe":
 		p.FETags = true
 		p.PTags = 65
